@@ -203,6 +203,28 @@ CHECKS = {
             "and walks the stored definition of all 8 classes for mutable values.",
             "Model of frozendict follows the installed pure-Python build (a dict subclass, so an already frozen dict is rebuilt by "
             "freeze_value); identity/aliasing and the process-wide option flags are outside the model.", "7/C18"),
+    "C10": ("Coq theorems about a mirror model of the regex front end (lexer, validator, concat insertion, shunting-yard, postfix "
+            "evaluation) and of NFARegexBuilder + differential correspondence against /repo via extracted model",
+            "Proved for all ASTs, alphabets and words (unbounded): the built NFA accepts exactly the denotation for literals, wildcard, "
+            "| & ^, concatenation, * + ? and {lo,hi} {lo,} {,hi} with every bound shape (C10_build_lang, with the fragment invariant "
+            "C10_fragment_invariant); NFA.from_regex as a whole returns a valid NFA with the denoted language (C10_from_regex_sound) and cannot fail on literals of the alphabet (C10_from_regex_total); "
+            "parsing the minimal-parenthesis printing of any AST returns the AST (precedence postfix > concatenation > binary, left "
+            "associative), a redundant outer pair of parentheses and blanks at token boundaries change nothing. Partial: printing is at "
+            "token level (no decimal rendering of bounds to characters); redundant parentheses are proved for the outer pair only, inner "
+            "ones are covered by the correspondence. Model tied to the code by nfa_diff between from_regex's NFA and the model's, exact "
+            "AST comparison, and accepts_input vs an independent evaluator on all words up to length 6.",
+            "Defect demonstrated on the unrepaired tree: upper bound 0 (a{0,0}) still accepts one copy.", "7/C10"),
+    "C11": ("Coq theorems about the same regex front-end model and a model of regex.py's helpers + differential correspondence "
+            "(exhaustive small token sequences) against /repo via extracted model",
+            "Proved for all character strings (unbounded): what regex.validate accepts goes through the whole front end without error "
+            "(C11_validated_compiles; C11_validated_from_regex_ok: from_regex then returns an NFA unless a literal is a lone brace / outside the given alphabet), what it refuses from_regex refuses with the same regex error type (C11_invalid_is_regex_error), "
+            "what compiles validates (C11_compiles_validates); isequal/issubset/issuperset over a common alphabet answer exactly "
+            "equality/inclusion of the denotations whenever they answer (C11_*_exact, resting on the verified comparator nfa_diff) and "
+            "fail only as one of the two from_regex calls fails. Partial: 'validated iff in the grammar' is proved in one direction "
+            "(C11_grammar_validates_partial; full statement kept as C11_validate_iff_grammar_statement); NFA.union inside "
+            "issubset/issuperset is modelled by the builder's union (NFA.union itself belongs to C08); the comparator can answer "
+            "'out of fuel' on very large operands (reported, never silently accepted).",
+            "Defect demonstrated on the unrepaired tree: a blank-only regex passes validate but from_regex raises IndexError.", "7/C11"),
 }
 
 PENDING = {}
